@@ -38,13 +38,15 @@
 EXTENDS Naturals, Sequences, FiniteSets, TLC
 
 CONSTANTS WithArg,      \* TRUE: generator<int,int>, FALSE: generator<int>
-          BodyKinds,    \* subset of {"yield","ynull","aready","apend","throw","return"}
+          BodyKinds,    \* subset of {"yield","yt","yv","ym","ynull","aready","apend","throw","return"}
           Styles,       \* subset of {"sync","coawait","future","begin","inc","postinc"}
           MaxBody,      \* bound on body script length (the last step is forced to end the body)
           MaxAcc,       \* bound on the number of consumer accesses
           MaxAfterEnd,  \* bound on accesses made after the first end/exception indication
           EarlyDestroy, \* TRUE: the generator may be destroyed at every parked point
-          Threaded      \* see above
+          Threaded,     \* see above
+          PostIncMoves  \* TRUE: generator_iterator::operator++(int) moves the current item out of the yielded object
+                        \* (iterator.h:61, the code as it is); FALSE: it copies it (repaired)
 
 ASSUME WithArg => Styles \cap {"begin", "inc", "postinc"} = {}   \* begin() calls next() without argument: static_assert
 ASSUME ~WithArg => "ynull" \notin BodyKinds
@@ -62,9 +64,12 @@ VARIABLES pr,        \* the promise's hand-over record
           par,       \* live copies of the coroutine's by-value parameter
           it,        \* generator_iterator::_next of the consumer's iterator: "none" | "true" | "false"
           alive,     \* the generator object exists
-          pc         \* code site to run next, "idle" = no library code on any stack
+          pc,        \* code site to run next, "idle" = no library code on any stack
+          pay        \* payload: the yielded objects.  var/moved: content and moved-from flag of the body's own named
+                     \* variable; rvar: _ret points at that variable (else at a temporary / a dying local);
+                     \* cp, mv: copy / move constructions of the value type made so far; ylog: contents yielded
 
-vars == <<pr, bst, pendk, nawait, bscript, cscript, obs, got, finAt, loc, par, it, alive, pc>>
+vars == <<pr, bst, pendk, nawait, bscript, cscript, obs, got, finAt, loc, par, it, alive, pc, pay>>
 
 (* obs[i].r, what access i reported:                                                        *)
 (*   "pending"  nothing yet (access in progress, or its future / co_await is outstanding)    *)
@@ -87,7 +92,12 @@ vars == <<pr, bst, pendk, nawait, bscript, cscript, obs, got, finAt, loc, par, i
 SyncStyles == {"sync", "begin", "inc", "postinc"}
 ArgVal(i) == IF WithArg THEN 100 + i ELSE 0
 Ob(r, v, p) == [r |-> r, v |-> v, p |-> p]
-NYield == Cardinality({j \in 1..Len(bscript) : bscript[j] = "yield"})
+(* ways to yield: "yield" a fresh object with content n (n-th co_yield; the replayer alternates a local variable
+   that dies afterwards and a temporary); "yt" co_yield T(var*10+n), a temporary computed from the body's variable;
+   "yv" var = var*10+n; co_yield var  (the body keeps using var afterwards: content 1, 12, 123 ...);
+   "ym" var = var*10+n; co_yield std::move(var)  (yield_value(Ret &&) bound to the variable itself) *)
+YieldKinds == {"yield", "yt", "yv", "ym"}
+NYield == Cardinality({j \in 1..Len(bscript) : bscript[j] \in YieldKinds})
 
 Init ==
     /\ pr = [caller |-> "null", ifn |-> "none", arg |-> 0, ret |-> 0, exp |-> FALSE, done |-> FALSE,
@@ -96,6 +106,7 @@ Init ==
     /\ bscript = <<>> /\ cscript = <<>> /\ obs = <<>> /\ got = <<>> /\ finAt = 0
     /\ loc = [ctor |-> 0, dtor |-> 0] /\ par = 1
     /\ it = "none" /\ alive = TRUE /\ pc = "idle"
+    /\ pay = [var |-> 0, moved |-> FALSE, rvar |-> FALSE, cp |-> 0, mv |-> 0, ylog |-> <<>>]
 
 -----------------------------------------------------------------------------
 (* consumer side *)
@@ -145,6 +156,11 @@ NextSync(style) ==
                     /\ pr' = [pr1 EXCEPT !.block = FALSE, !.caller = "internal", !.ifn = "sync"]
                     /\ pc' = "body"
                     /\ UNCHANGED it
+    \* it++ takes the current item first: storage z{std::move(_gen->value())}, iterator.h:61
+    /\ pay' = IF style # "postinc" THEN pay
+              ELSE IF PostIncMoves
+                THEN [pay EXCEPT !.mv = @ + 1, !.var = IF pay.rvar THEN 0 ELSE @, !.moved = IF pay.rvar THEN TRUE ELSE @]
+                ELSE [pay EXCEPT !.cp = @ + 1]
     /\ UNCHANGED <<bst, pendk, nawait, bscript, got, finAt, loc, par, alive>>
 
 (* co_await gen.next(args...): await_ready (:314), await_suspend -> next_async (:319, :204-215);
@@ -165,7 +181,7 @@ NextAsync ==
                ELSE /\ obs' = Append(obs, Ob("pending", 0, 0))
                     /\ pr' = [pr1 EXCEPT !.caller = "awt"]
                     /\ pc' = "body"
-    /\ UNCHANGED <<bst, pendk, nawait, bscript, got, finAt, loc, par, it, alive>>
+    /\ UNCHANGED <<bst, pendk, nawait, bscript, got, finAt, loc, par, it, alive, pay>>
 
 (* gen(args...): set_arg, next_future (:239-258) *)
 NextFuture ==
@@ -180,7 +196,7 @@ NextFuture ==
                ELSE /\ obs' = Append(obs, Ob("pending", 0, 0))
                     /\ pr' = [pr1 EXCEPT !.awaiting = i, !.caller = "internal", !.ifn = "future"]
                     /\ pc' = "body"
-    /\ UNCHANGED <<bst, pendk, nawait, bscript, got, finAt, loc, par, it, alive>>
+    /\ UNCHANGED <<bst, pendk, nawait, bscript, got, finAt, loc, par, it, alive, pay>>
 
 -----------------------------------------------------------------------------
 (* body side *)
@@ -192,7 +208,7 @@ BodyResume ==
     /\ bst' = "run"
     /\ loc' = IF bst = "init" THEN [loc EXCEPT !.ctor = @ + 1] ELSE loc
     /\ got' = IF bst = "yield" /\ WithArg THEN Append(got, [a |-> Len(cscript), v |-> pr.arg]) ELSE got
-    /\ UNCHANGED <<pr, pendk, nawait, bscript, cscript, obs, finAt, par, it, alive, pc>>
+    /\ UNCHANGED <<pr, pendk, nawait, bscript, cscript, obs, finAt, par, it, alive, pc, pay>>
 
 (* where control goes when the body suspends without handing anything back: to the blocked sync
    caller's _block.wait (:235) or out of the library *)
@@ -203,10 +219,16 @@ BodyStep(kind) ==
     /\ Len(bscript) < MaxBody
     /\ Len(bscript) = MaxBody - 1 => kind \in {"return", "throw"}
     /\ bscript' = Append(bscript, kind)
-    /\ CASE kind = "yield" ->       \* yield_value: _ret = &x (:184-191)
-              /\ pr' = [pr EXCEPT !.ret = NYield + 1]
-              /\ pc' = "ysusp"
-              /\ UNCHANGED <<bst, pendk, nawait, got, finAt, loc>>
+    /\ kind \notin YieldKinds => UNCHANGED pay
+    /\ CASE kind \in YieldKinds -> \* yield_value(Ret &) / yield_value(Ret &&): _ret = &x (:184-191)
+              LET n == NYield + 1
+                  c == IF kind = "yield" THEN n ELSE pay.var * 10 + n
+                  v == kind \in {"yv", "ym"}
+              IN /\ pr' = [pr EXCEPT !.ret = c]
+                 /\ pay' = [pay EXCEPT !.var = IF v THEN c ELSE @, !.moved = IF v THEN FALSE ELSE @,
+                                       !.rvar = v, !.ylog = Append(@, c)]
+                 /\ pc' = "ysusp"
+                 /\ UNCHANGED <<bst, pendk, nawait, got, finAt, loc>>
          [] kind = "ynull" ->       \* yield_null::await_resume returns *_arg, no suspension (:163-171)
               /\ got' = Append(got, [a |-> Len(cscript), v |-> pr.arg])
               /\ UNCHANGED <<pr, pc, bst, pendk, nawait, finAt, loc>>
@@ -237,7 +259,7 @@ FinalSuspend ==
     /\ pr' = [pr EXCEPT !.ret = 0]
     /\ bst' = "final"
     /\ pc' = "ysusp"
-    /\ UNCHANGED <<pendk, nawait, bscript, cscript, obs, got, finAt, loc, par, it, alive>>
+    /\ UNCHANGED <<pendk, nawait, bscript, cscript, obs, got, finAt, loc, par, it, alive, pay>>
 
 (* yield_suspend::await_suspend (:150-155): _arg = nullptr, caller = exchange(_caller, nullptr),
    caller->resume() *)
@@ -249,14 +271,14 @@ YieldSuspend ==
                [] pr.caller = "internal" /\ pr.ifn = "future" -> "unb_fut"
                [] pr.caller = "awt" -> "res_awt"
                [] OTHER -> "crash"          \* null _caller dereferenced
-    /\ UNCHANGED <<pendk, nawait, bscript, cscript, obs, got, finAt, loc, par, it, alive>>
+    /\ UNCHANGED <<pendk, nawait, bscript, cscript, obs, got, finAt, loc, par, it, alive, pay>>
 
 (* resume_fn_sync -> unblock_sync (:104-108, :123-126) *)
 UnblockSync ==
     /\ pc = "unb_sync"
     /\ pr' = [pr EXCEPT !.block = TRUE]
     /\ pc' = "syncwait"
-    /\ UNCHANGED <<bst, pendk, nawait, bscript, cscript, obs, got, finAt, loc, par, it, alive>>
+    /\ UNCHANGED <<bst, pendk, nawait, bscript, cscript, obs, got, finAt, loc, par, it, alive, pay>>
 
 (* _block.wait(false) passes (:235); back in the adapter: await_resume (:300, :329), the consumer
    looks at the result; iterators keep the flag (iterator.h:29,39,62) *)
@@ -267,7 +289,7 @@ SyncReturn ==
        IN /\ obs' = [obs EXCEPT ![i] = o]
           /\ it' = IF cscript[i] = "sync" THEN it ELSE (IF pr.done THEN "false" ELSE "true")
     /\ pc' = "idle"
-    /\ UNCHANGED <<pr, bst, pendk, nawait, bscript, cscript, got, finAt, loc, par, alive>>
+    /\ UNCHANGED <<pr, bst, pendk, nawait, bscript, cscript, got, finAt, loc, par, alive, pay>>
 
 (* resume_fn_future -> unblock_future (:118-121, :128-133): the parked promise is resolved *)
 UnblockFuture ==
@@ -279,6 +301,8 @@ UnblockFuture ==
                 ELSE Ob("crash", 0, 0)       \* *_ret with _ret = nullptr
        IN obs' = [obs EXCEPT ![i] = o]
     /\ pr' = [pr EXCEPT !.awaiting = 0]
+    \* _awaiting(*_ret): the future's value is COPY constructed from the yielded object, whatever it is (:132)
+    /\ pay' = IF ~pr.done /\ ~pr.exp /\ pr.ret # 0 THEN [pay EXCEPT !.cp = @ + 1] ELSE pay
     /\ pc' = "idle"
     /\ UNCHANGED <<bst, pendk, nawait, bscript, cscript, got, finAt, loc, par, it, alive>>
 
@@ -287,7 +311,7 @@ ResumeAwt ==
     /\ pc = "res_awt"
     /\ obs' = [obs EXCEPT ![Len(cscript)] = ObsNext(pr, 0)]
     /\ pc' = "idle"
-    /\ UNCHANGED <<pr, bst, pendk, nawait, bscript, cscript, got, finAt, loc, par, it, alive>>
+    /\ UNCHANGED <<pr, bst, pendk, nawait, bscript, cscript, got, finAt, loc, par, it, alive, pay>>
 
 (* the operation the body awaits is completed: the body is resumed inside the completing call.
    Single thread: only between accesses; Threaded: also while the sync caller is blocked *)
@@ -297,7 +321,7 @@ ExternalResolve(k) ==
        \/ Threaded /\ pc = "syncwait" /\ ~pr.block
     /\ bst' = "run" /\ pendk' = 0
     /\ pc' = "body"
-    /\ UNCHANGED <<pr, nawait, bscript, cscript, obs, got, finAt, loc, par, it, alive>>
+    /\ UNCHANGED <<pr, nawait, bscript, cscript, obs, got, finAt, loc, par, it, alive, pay>>
 
 (* ~generator: deleter -> handle.destroy() (:474-478).  Legal only while the body is parked at
    initial_suspend, at a co_yield or at final_suspend and no access is outstanding. *)
@@ -309,7 +333,7 @@ Destroy ==
     /\ bst' = "gone"
     /\ loc' = IF bst = "yield" THEN [loc EXCEPT !.dtor = @ + 1] ELSE loc
     /\ par' = 0
-    /\ UNCHANGED <<pr, pendk, nawait, bscript, cscript, obs, got, finAt, it, pc>>
+    /\ UNCHANGED <<pr, pendk, nawait, bscript, cscript, obs, got, finAt, it, pc, pay>>
 
 Next ==
     \/ \E s \in SyncStyles : NextSync(s)
@@ -340,13 +364,23 @@ Vals == SelectSeq(obs, LAMBDA o : o.r = "val")
 (* the consumer saw exactly 1,2,...,m = everything yielded so far, in this order, each once; while a
    hand-over is in progress at most the newest value is not yet seen *)
 SameSequence ==
-    /\ \A j \in 1..Len(Vals) : Vals[j].v = j
+    /\ \A j \in 1..Len(Vals) : j <= Len(pay.ylog) /\ Vals[j].v = pay.ylog[j]
+    /\ Len(pay.ylog) = NYield
     /\ Len(Vals) <= NYield /\ NYield <= Len(Vals) + 1
     /\ Quiet => Len(Vals) = NYield
     /\ \A i \in 1..Len(obs) : obs[i].r \notin {"notready", "crash"}
     /\ \A i \in 1..Len(obs) : obs[i].r = "pending" => (i = Len(obs) /\ ~Quiet)
     \* a post-increment hands out the value that was current before it advanced
     /\ \A i \in 2..Len(obs) : cscript[i] = "postinc" => obs[i].p = obs[i-1].v
+
+(* the yielded OBJECTS: the library itself never moves from or modifies what the body yielded -- a consumer reading
+   through next()/value(), *it, range-for or co_await next() works on the object itself, gen() resolves its future with
+   exactly one COPY -- with the one exception the code has: it++ (PostIncMoves) moves the item out, and if the body
+   yielded its own variable that variable is gutted *)
+PayloadIntact ==
+    /\ pay.moved => (PostIncMoves /\ \E i \in 1..Len(cscript) : cscript[i] = "postinc")
+    /\ pay.mv = IF PostIncMoves THEN Cardinality({i \in 1..Len(cscript) : cscript[i] = "postinc"}) ELSE 0
+    /\ pay.cp <= Len(cscript)
 
 (* after the body returned: the access during which it returned reports the end, every access
    before it reported a value, every later one reports the end again (next()/co_await: false,
